@@ -222,6 +222,11 @@ Definition spi (r : radio) (mosi : list N) : radio * list N :=
     else (r, st :: repeat 0 n)                                             (* NOP, REUSE_TX_PL, ... *)
   end.
 
+(* commands whose data bytes are don't-care on MOSI (reads, flushes, NOP): the driver clocks out
+   whatever its buffer holds *)
+Definition mosi_data_matters (cmd : N) : bool :=
+  ((32 <=? cmd) && (cmd <? 64)) || (cmd =? 80) || (cmd =? 160) || (cmd =? 176) || ((168 <=? cmd) && (cmd <=? 173)).
+
 (* IRQ pin (active low): asserted iff an unmasked flag is latched *)
 Definition irq_asserted (r : radio) : bool :=
   negb (N.land (flags r) (N.land (N.lxor 112 (N.land (sreg r R_CONFIG) 112)) 112) =? 0).
